@@ -192,7 +192,7 @@ def main(prop, tier, seed, replay_path=None):
             print('MACHINERY-FAILURE property=C15: design check of System.tla failed\n' + (mc['error'] or mc['out'][-2500:]))
             return 2
         edges = [j for j in mc['json'] if 'hist' in j]
-        cap = 40000 if quick else 120000       # bound the replay: a seeded sample of the explored edges
+        cap = 40000 if quick else 80000       # bound the replay: a seeded sample of the explored edges
         if len(edges) > cap:
             edges = rng.sample(edges, cap)
     jobs = []
